@@ -3,7 +3,7 @@
 //! A case carries an abstract schema description and a list of export option sets:
 //!
 //! ```text
-//! (sdl (optsets OPTS…) (dyn|static|static2|static3|static4 (roots "Q" M) (T…) (ddefs DDEF…)))
+//! (sdl (optsets OPTS…) (dyn|static|static2|static3|static4|static5 (roots "Q" M) (T…) (ddefs DDEF…)))
 //! OPTS := (opts sorted_fields sorted_arguments sorted_enum_items prefer_single_line include_specified_by
 //!               federation compose_directive use_space_ident indent_width)
 //! A    := (a DESC DEP INACC (TAG…) (DIR…))      DESC := - | "text"   DEP := - | (dep) | (dep "reason")
@@ -20,6 +20,9 @@
 //! case (a constant of this file) is what the Lean side believes the derive macros registered.
 //! `static3` / `static4`: a derive-built type skeleton (`mod fixed3`) whose custom directive
 //! definitions (incl. the `composable` URL) and applications are taken from the case.
+//! `static5`: the declaration zoo of `src/zoo.rs` (every derive macro × attribute × container); the
+//! case carries the description written by hand next to the declarations, `iv` / `f` nodes of
+//! container declarations end with the declared Rust type `(vec (option (leaf "Int")))`.
 //! Output per option set: the SDL text, and the crate's own `parse_schema` verdict on it with the
 //! document it yields in canonical form.
 
@@ -39,6 +42,9 @@ use async_graphql_parser::{
 };
 use async_graphql_value::{ConstValue, Name};
 use indexmap::IndexMap;
+
+#[path = "../zoo.rs"]
+mod zoo;
 
 // ------------------------------------------------------------------ case → dynamic schema
 
@@ -907,6 +913,12 @@ fn run(case: &Sexp, dist: &mut Dist) -> Sexp {
             configure_slots(schema);
             fixed3::export_b()
         }
+        // the declaration zoo (src/zoo.rs): the case carries the description written by hand next
+        // to the declarations
+        "static5" => {
+            let s = zoo::build_no_sub();
+            Box::new(move |o| s.sdl_with_options(o))
+        }
         k => panic!("bad schema kind {k}"),
     };
     let mut outs = vec![];
@@ -1400,7 +1412,10 @@ fn gen_case(rng: &mut Rng, i: usize, _o: &Opts, dist: &mut Dist) -> Sexp {
     while sets.len() < 4 {
         sets.push(gen_opts(rng, dist));
     }
-    let schema = if i % 50 == 32 {
+    let schema = if i % 25 == 13 {
+        dist.hit("static_schema_declaration_zoo");
+        zoo::wire::c17("static5", &zoo::declared(false))
+    } else if i % 50 == 32 {
         dist.hit("static_schema_witnesses");
         Sexp::parse(FIXED2_DESC).expect("FIXED2_DESC")
     } else if i % 25 == 7 {
